@@ -6,6 +6,7 @@ import sys
 import time
 
 import checklib
+import tlcgen
 from checklib import Machinery, VERIF, b2s, s2b, load_known, run_mc, save_replay, write_evidence
 
 try:
@@ -46,6 +47,9 @@ def reg(pid, **kw):
              hook=None, prefixes=None, exc_ops=set(), obs_fail=True, nontrivial=None, weights=None,
              extra_sources=())
     d.update(kw)
+    if "extra_sources" not in kw and not d.get("custom") and not d.get("roles") and not d.get("maker") \
+            and d["mc"] and d["mc"][0][0] == "core":
+        d["extra_sources"] = (tlcgen.tlc_traces,)
     d["prefixes"] = d["prefixes"] or [pid + "."]
     P[pid] = d
 
@@ -245,8 +249,9 @@ def run_check(pid, tier, seed, work, t0):
     # 2. behaviours replayed into the real code
     maker = cfg.get("maker") or (make_pairs if cfg.get("roles") else make_traces)
     traces, gstats = maker(pid, cfg, tier, seed, work)
+    hook_fn = getattr(hooks, "hook_" + cfg["hook"]) if cfg["hook"] else None
     for mk in cfg["extra_sources"]:
-        more, st = mk(pid, cfg, tier, seed, work, len(traces))
+        more, st = mk(pid, cfg, tier, seed, work, max([t["id"] for t in traces] + [0]) + 2, hook=hook_fn)
         traces += more
         gstats.update(st)
     # 3. TLC validates the recorded traces
